@@ -15,7 +15,8 @@ CLAIMED = {
          'corner values (threshold masks, huge coefficients, collapsed clip values, ...), aborted forwards. The reference '
          'replica runs first and is recorded, so the subject cannot reach it through shared state. Also: both resume orders '
          '(configuration re-issued before / after the load), other models of the same process built and run in between '
-         '(bystanders), MPS quantizer variants incl. per-layer qinfo entries, hardware cost models (gap8, mpic). A clean '
+         '(bystanders), MPS quantizer variants incl. per-layer qinfo entries, hardware cost models (gap8, mpic); two '
+         'wrappers built by one script in one process must have the same state_dict keys and shapes. A clean '
          'batch is evidence, not proof.',
     note='Trusted: torch (autograd, state_dict, save/load). Restart protocol "config is code, state is data" '
          '(MPS temperature is deliberately not re-issued: the code registers it as a buffer). Volatile in-flight state '
@@ -32,7 +33,8 @@ CLAIMED = {
          'reference; the final probe reads cost and summary before any forward pass; two consecutive exports must be '
          'identical (structure, weights, outputs). Cost reads separated only by calls that cannot change the cost must agree '
          'on either replica (catches impure-but-idempotent observers). Observer storms, looks at the model right after an '
-         'interrupted forward, user-held specification objects re-used across switches, other models of the same process '
+         'interrupted forward, interrupts before the pass and between the finished loss graph and backward(), '
+         'user-held specification objects re-used across switches, other models of the same process '
          'built, trained and exported in between (bystanders), hardware cost models (gap8, mpic) in the switches.',
     note='Trusted: torch. The torch RNG is re-seeded before every op on both replicas (RNG consumption by an observer '
          'is not flagged). Buffer-only differences without observable effect are counted, not flagged. An observer '
@@ -73,7 +75,8 @@ CLAIMED = {
          'in permuted order) run during and after registration; every answer is compared with an order-free '
          'reference dictionary and, over the recorded history, with the same registrations replayed in library '
          'and reverse order. User constraints are plain functions, lambdas, functools.partial objects, callable '
-         'instances or bound methods; other specification objects are filled and queried in between. The order space per layer type (<=24 orders of 4 patterns) is sampled, not enumerated; '
+         'instances or bound methods; other specification objects are filled and queried in between; unconstrained '
+         'patterns for related layer types (base classes, sub-classes) are registered in the same specification. The order space per layer type (<=24 orders of 4 patterns) is sampled, not enumerated; '
          'the evidence reports how many distinct (pattern set, order) pairs were seen.',
     note='Trusted: torch, the reference dictionary (40 lines), the README reading that >=2 matching constrained '
          'patterns is unspecified. Each pattern is registered at most once per specification.',
@@ -87,7 +90,8 @@ CLAIMED = {
          'same process are called in between. Every call is checked against the '
          'closed-form reference (value, per-metric effective strength read as gradient), and the recorded history is '
          'checked for monotonicity in the epoch, 1% start, saturation at half schedule and never exceeding the final '
-         'strength; BaseRegularizer is checked as strength x cost.',
+         'strength; BaseRegularizer is checked as strength x cost (value and gradient), also on one long-lived object whose '
+         'strength and cost name the script re-assigns between calls.',
     note='Trusted: torch autograd, the closed-form reference. Precondition (positive finite final strengths) as in '
          'the statement; draws that do not meet it are counted, not checked. Float tolerance rtol 2e-4.',
     tech='deterministic simulation: virtual epoch clock with clock-jump faults, closed-form reference + history checks',
